@@ -351,6 +351,38 @@ func C17(ctx *core.Ctx) {
 	if f := r.Fn("C17.R5", "Clone"); f != nil {
 		cloners = append(cloners, f)
 	}
+	// the generic Clone hands a context that can clone itself to its OWN Clone: the
+	// test is for the interface, so wrappers and other implementations that carry
+	// ephemeral properties keep them (a test for *FContextImpl sends them down the
+	// generic path, which starts from an empty property map)
+	if f := r.FnOpt("Clone"); f != nil {
+		nDisp := 0
+		ssax.Instrs(f, func(in ssa.Instruction) {
+			ta, ok := in.(*ssa.TypeAssert)
+			if !ok || !ta.CommaOk || len(f.Params) == 0 || ssax.Strip(ta.X) != ssa.Value(f.Params[0]) {
+				return
+			}
+			// is Clone invoked on the asserted value?
+			invoked := false
+			for _, u := range *ta.Referrers() {
+				if ex, ok := u.(*ssa.Extract); ok && ex.Index == 0 {
+					for _, u2 := range *ex.Referrers() {
+						if c, ok := ssax.AsCall(u2); ok && c.ShortName() == "Clone" {
+							invoked = true
+						}
+					}
+				}
+			}
+			if !invoked {
+				return
+			}
+			nDisp++
+			_, isIface := ta.AssertedType.Underlying().(*types.Interface)
+			ctx.Check(isIface, "C17.R5", ssax.Name(f)+" › self-cloning contexts are recognised by interface", r.IPos(in), "type assertion to an interface that declares Clone",
+				"the generic Clone recognises only the concrete "+ta.AssertedType.String()+": a context that embeds it, or another implementation with ephemeral properties, is copied by the generic path and its clone starts with no ephemeral properties")
+		})
+		_ = nDisp
+	}
 	for _, fn := range cloners {
 		fname := ssax.Name(fn)
 		ssax.Instrs(fn, func(in ssa.Instruction) {
